@@ -11,7 +11,7 @@ CLAIMS = {
   "index and slice expressions on strings and arrays) state the language's value semantics as postconditions over the real functions in eval/ and object/; "
   "every obligation is discharged for all operands with 64-bit integers as bit-vectors and IEEE floats. The tree-walking recursion above the leaves "
   "(evaluation order, scoping) is carried by assumed frame contracts, so this is a proof of the leaf semantics and of evaluation-order clauses inside the verified callers, not of whole-program meaning.",
-  "Assumed: contracts of the recursive Eval family members listed as 'assumed' in eval/verif_contracts.go; stdlib contracts in contracts/stdlib.contracts; strings shorter than 2^46; panics other than those named by maypanic clauses are obligations."),
+  "Assumed (reported per run in the evidence as ASSUMED PRECONDITION / ASSUMED CLAUSE notes): operand values handed to the leaf operations are well-formed (wfObj: no typed-nil, small arrays within their length bound) - a data invariant of evaluated values that the dispatcher does not establish; (*State).quote's contract; stdlib contracts in contracts/stdlib.contracts; strings shorter than 2^46."),
  "C04": ("proof",
   "Proved for all inputs: the guard discipline of the function-result cache. applyFunction stores a result only when the callee scope's miss counter did not move during the body and the result is not an error (preconditions at the call to Cache.Set), and every call that could not be cached is counted in the caller's scope (the genuine defect found here - a callee's outside lookup did not reach the caller - is fixed); "
   "the miss counter of every scope is monotone across every evaluator step and every Environment getter/setter (quantified frame clause on 30 functions), and applyExtension counts an extension marked DontCache before calling it. "
@@ -23,7 +23,7 @@ CLAIMS = {
   "extendFunctionEnv allocates parameter registers only while the fresh environment has room, CopyRegister/evalExpressions never let a *Register escape as an argument. "
   "The observational equivalence of registers on/off over whole programs is a two-run relation over the rewritten body that per-function contracts cannot state; it is covered by a bounded differential stand-in "
   "(3000 generated programs quick, 40000 thorough), labelled bounded and not counted as proved. Seven genuine differences are recorded as known findings.",
-  "Assumed: setupRegister frame (ast.Modify callback), (*Register).Ptr non-nil, frame contracts of the assumed Eval family; panic exits rely on the defer and are not modelled."),
+  "Assumed: 0 <= numReg on entry of evalForInteger and function objects carrying an environment (data invariants, @assumed preconditions), setupRegister's frame (ast.Modify callback), (*Register).Ptr non-nil, (*State).quote; panic exits are covered through the exceptional postconditions (onpanic ensures) of C10."),
  "C06": ("proof",
   "The functions that implement index assignment, element deletion and + on arrays and maps carry the postcondition 'no element of any slice/array block that existed before the call has changed' (memsame), which is what every other binding, argument or container element of the old value observes; "
   "map merging (SmallMap.Append, BigMap.Append, SmallMap.Set) is proved to write only storage the call allocates, BigMap.Set/Delete are proved against an explicit frame (their receiver's pairs only). For big arrays and big maps the in-place writes of evalIndexAssigment, deleteMapEntry and array + fail these obligations: genuine defects (the repairs cost O(n) per element assignment and were measured to slow the repository's own examples 30x, so they are recorded, not fixed). "
@@ -59,6 +59,10 @@ CLAIMS = {
   "Structural core decided on SSA over the whole repository, for every input: syntax trees are immutable after construction. No function stores into a field of a syntax-tree node or into an element of a []ast.Node block that it did not allocate in the same activation, except DefineMacros (which removes definitions from the program it is given); ast.Modify/ModifyNoOk are therefore copying rewriters (the class of the sharing bug of issue #223), macro objects are written only at creation, and quoteArgs calls nothing. "
   "This gives: a definition is not altered by its uses, call sites expand independently, arguments are not evaluated during expansion. That the expanded tree is exactly the hand-substituted one is a relation over all templates and is covered by a bounded stand-in (14 templates x 10 argument tuples x 5 contexts, printed, re-parsed and evaluated), labelled bounded.",
   "The structural clauses are audits on the real code's SSA (no SMT obligations); freshness is syntactic per activation. Bounded stand-in is not a proof."),
+ "C14": ("proof",
+  "Structural core decided on the SSA of the real SaveGlobals / Inspect code, for every state: the file is written only through two fmt.Fprintf calls with the constant formats \"%s\\n\" and \"%s=%s\\n\" (one terminated line per binding), the name=value write is reached only when no limit is configured or len(val) > limit is false for the very string that is written and the function slices no string (over-long values are skipped, never truncated), the keys are sorted before the first write (the file is a function of the bindings), and String.Inspect is strconv.Quote. SaveGlobals's write-error contract (C18) is re-proved. "
+  "That the saved text parses and evaluates back to an equal value of the same type, and functions to equally behaving functions, goes through printer, lexer, parser and evaluator: bounded stand-in (30 data bindings across all kinds and both size thresholds, 8 functions, reload whole and line by line, re-save). One genuine defect found by it is fixed (control-character escapes); two are recorded as known findings (integral floats reload as integers; the smallest integer reloads as a float).",
+  "The structural clauses are audits (no SMT obligations besides SaveGlobals's C18 contract); library formatting functions are trusted to produce newline-free text; the round trip itself is bounded only."),
  "C15": ("proof",
   "Lexer level, decided for every input: the two modes differ only in the end marker. The field Lexer.lineMode is read by exactly one function (EOLEOF, contract proved: EOL in line mode, EOF otherwise), written only by the constructor on the object it allocates, and EOLEOF's result flows only into NextToken's return value (three SSA audit clauses); with NextToken's C16 contract this makes every non-end token and every lexer position the same function of (input, position) in both modes. "
   "The parser (prefix/infix function-value tables) is outside govc's subset, so 'same tree', 'asks for more input' and the statement-by-statement session equivalence are covered by a bounded stand-in over the repository's examples, tests and generated programs (every token-boundary prefix), labelled bounded. One genuine deviation is recorded as a known finding.",
@@ -86,7 +90,6 @@ CLAIMS = {
 NOT_APPLICABLE = {
  "C02": "print-then-parse identity is a correctness statement about the Pratt parser composed with the printer: the parser dispatches through maps of function values (outside govc's subset: such a call havocs everything) and the statement needs an induction over the grammar relating two recursive algorithms; no per-function contract within reach expresses it, and deciding it by generating programs and comparing trees would be testing, a different technique (DESIGN.md 8.2)",
  "C03": "the formatting fixpoint and its determinism are statements about printer o parser o printer over all accepted texts; same obstacle as C02 (parser outside the verifier's subset, whole-algorithm induction); only the trivial clause 'output ends with one newline' is per-function and it needs a ghost model of the io.Writer contents that was not built (DESIGN.md 8.2)",
- "C14": "save-then-load reproduces the state is an end-to-end statement through printer, parser and evaluator (value equality and behavioural equality of reloaded functions); the per-function clauses within reach (SaveGlobals skips over-long values instead of truncating, one line per binding) need a model of the bytes written through fmt.Fprintf to an io.Writer that was not built; a bounded-only check would be testing (DESIGN.md 8.6)",
 }
 
 def main():
